@@ -201,3 +201,18 @@ package function
 //@       (forall k in 0..len(out) :: (ref(out[k].SampleIDs) != ref(step.SampleIDs) || ref(step.SampleIDs) == 0) && (ref(out[k].Samples) != ref(step.Samples) || ref(step.Samples) == 0))
 //@   loop 2 invariant step2: step.T == vector.T && len(step.SampleIDs) == len(step.Samples) && fresh(step.SampleIDs) && fresh(step.Samples) && allocated(step.SampleIDs) && allocated(step.Samples) &&
 //@       (forall j in 0..len(step.SampleIDs) :: step.SampleIDs[j] < len(o.seriesBuckets))
+
+// histogramOperator.loadSeries (C06, C17, C19): input series are grouped into output series by the
+// label set that is reported for the output series - the one left after `le` AND the metric name
+// were dropped (on a private copy). Hashing anything else would let two input series with the same
+// reported label set end up as two output series with identical labels.
+//@ func (*histogramOperator).loadSeries
+//@   requires o != nil && o.vectorOp != nil && o.pool != nil && ctx != nil
+//@   panics may
+//@   ghostvar hashedRef int = 0
+//@   ghostvar hashedLen int = 0
+//@   at line "hashBuf = lbls.Bytes(hashBuf)" set hashedRef = ref(lbls)
+//@   at line "hashBuf = lbls.Bytes(hashBuf)" set hashedLen = len(lbls)
+//@   at line "o.series = append(o.series, lbls)" assert[C06,C19] output-series-are-keyed-by-their-reported-label-set: ref(lbls) == hashedRef && len(lbls) == hashedLen
+//@   at function.dropLabel assert[C17] storage-labels-are-copied-before-le-is-dropped: isnil($l) || $l.lowned
+//@   loop 0 invariant o != nil && len(o.outputIndex) == len(series) && hasher != nil
